@@ -21,7 +21,7 @@ cVals == [names |-> {N(<<"a">>), N(<<"B">>)}, anames |-> {N(<<"x">>), N(<<"k", "
           texts |-> {<<"<", "&", ">">>, <<"\"", "'">>, <<" ", "v", "\t">>, <<"7">>, <<"~", "&", "\n", "~">>, <<"\n">>}, maxattrs |-> 1, comments |-> FALSE]
 \* numerals beyond int64, the long spelling of negative infinity (both under the cast flag), tab and newline inside an attribute value
 cVals2 == [names |-> {N(<<"a">>)}, anames |-> {N(<<"x">>)}, avals |-> {<<"a", "\t", "\n", "b">>, <<"7">>},
-           texts |-> {Big19, <<"-", "I", "n", "f", "i", "n", "i", "t", "y">>, <<"7">>, <<"a", "]", "]", ">", "1">>}, maxattrs |-> 1, comments |-> FALSE]     \* (]]> may not stand in character data unescaped)
+           texts |-> {Big19, <<"-", "I", "n", "f", "i", "n", "i", "t", "y">>, <<"7">>, <<"a", "]", "]", ">", "1">>, <<" ", " ">>}, maxattrs |-> 1, comments |-> FALSE]     \* (a run of blanks: a value under keep-spaces; ]]> may not stand in character data unescaped)
 \* values with exactly ONE kind of special character each (an escaping routine that looks for "any special" first)
 cVals1 == [names |-> {N(<<"a">>)}, anames |-> {N(<<"x">>), N(<<"y">>)},
            avals |-> {<<"\"">>, <<"'">>, <<"<">>, <<">">>, <<"&">>, <<"v">>},
